@@ -145,7 +145,7 @@ fn history(rng: &mut Rng, id: usize, crystals: &[(String, CrystalType)]) {
       0 => ("set_phi", vec![angle_arg(rng)]),
       1 => ("set_theta_internal", vec![angle_arg(rng)]),
       2 => ("set_angles", vec![angle_arg(rng), angle_arg(rng)]),
-      3 => ("set_theta_external", vec![rng.range(-80.0, 80.0) * PI / 180.0]),
+      3 => ("set_theta_external", vec![if rng.below(5) == 0 { 0.0 } else { rng.range(-80.0, 80.0) * PI / 180.0 }]),
       4 => ("set_vacuum_wavelength", vec![rng.log_range(wlo, whi)]),
       5 => ("set_frequency", vec![2.0 * PI * 299792458.0 / rng.log_range(wlo, whi)]),
       6 => ("set_polarization", vec![rng.below(2) as f64]),
